@@ -1341,6 +1341,8 @@ class Interp:
                 return args[0].lookup(args[1]) is not None or any(args[1] in k.class_assigns() for k in args[0].mro())
             if name == "type" and len(args) == 1 and isinstance(args[0], Obj):
                 return args[0].cls
+            if name == "type" and len(args) == 1 and type(args[0]) in (list, tuple, dict, set, str, int, float, bool, type(None)):
+                return Sym("builtin:" + ("NoneType" if args[0] is None else type(args[0]).__name__))
         except (TypeError, ValueError):
             pass
         return self.external_call(name, args, kwargs, node)
